@@ -2,7 +2,7 @@ SPECIFICATION Spec
 CONSTANTS
   MaxLen = 3
   MaxW = 5
-  ValA = {0, 1, 3}
+  ValA <- SignedA
   ValB = {0, 1, 2}
   WithNull = TRUE
   ElemA <- ElemADef
